@@ -168,6 +168,7 @@ func flipBit(b []byte, i int) []byte {
 }
 
 func runC06(c *h.Ctx) {
+	c06NearMissRequestKeys(c)
 	nHonest := 2
 	if c.Thorough() {
 		nHonest = 6
